@@ -4,11 +4,12 @@ CONSTANTS
   NConn = 3
   MaxReq = 3
   QCapG = 1
-  Kinds = {"single", "stream2", "fail", "txn", "rlong", "rshort"}
-  MaxOps = 14
+  Kinds = {"single", "stream2", "fail", "txn", "rlong", "rshort", "xfr", "fblong"}
+  MaxOps = 16
   MaxCredit = 5
   MaxTick = 3
   Limit = 2
+  Defaults = FALSE
 SPECIFICATION Spec
 INVARIANT Emit
 CHECK_DEADLOCK FALSE
